@@ -67,7 +67,7 @@ inline std::string op_pretty(const Op& o) {
     case O_CREATE: {
       s << "create e@slot" << o.at(CA_SLOT) << " on m" << o.at(CA_OBJ) << "." << func_name(o.at(CA_FUNC)) << "(";
       s << mk[o.at(CA_M0K) % NMKIND] << (o.at(CA_M0K) >= M_VALUE ? std::to_string(o.at(CA_M0V)) : "");
-      if (o.at(CA_FUNC) == F_g) s << "," << mk[o.at(CA_M1K) % NMKIND] << (o.at(CA_M1K) >= M_VALUE ? std::to_string(o.at(CA_M1V)) : "");
+      if (second_pos(o.at(CA_FUNC)) >= 0) s << (o.at(CA_FUNC) == F_w ? ",..,_11:" : ",") << mk[o.at(CA_M1K) % NMKIND] << (o.at(CA_M1K) >= M_VALUE ? std::to_string(o.at(CA_M1V)) : "");
       s << ") times[" << o.at(CA_LO) << "," << (o.at(CA_HI) < 0 ? std::string("inf") : std::to_string(o.at(CA_HI))) << "]";
       for (int j = 0; j < o.at(CA_NSEQ); ++j) s << " in s" << o.at(CA_SEQ0 + j);
       if (o.at(CA_W0) || o.at(CA_W1)) s << " with(" << o.at(CA_W0) << "," << o.at(CA_W1) << ")";
@@ -78,7 +78,7 @@ inline std::string op_pretty(const Op& o) {
     }
     case O_CALL:
       s << "call m" << o.at(0) << "." << func_name(o.at(1)) << "(" << o.at(2);
-      if (o.at(1) == F_g) s << "," << o.at(3);
+      if (second_pos(o.at(1)) >= 0) s << (o.at(1) == F_w ? ",..,_11:" : ",") << o.at(3);
       s << ")";
       break;
     default: s << op_text(o);
@@ -245,10 +245,10 @@ class Model {
   }
 
   // --- matching --------------------------------------------------------------------------
-  static int with_key(const Spec& s, int idx, int a0, int a1) { return (s.func == F_g && idx == 1) ? a1 : a0; }
+  static int with_key(const Spec& s, int idx, int a0, int a1) { return (second_pos(s.func) >= 0 && idx == 1) ? a1 : a0; }
   static bool params_match(const Spec& s, int a0, int a1) {
     if (!mspec_accepts(s.m[0], a0)) return false;
-    if (s.func == F_g && !mspec_accepts(s.m[1], a1)) return false;
+    if (second_pos(s.func) >= 0 && !mspec_accepts(s.m[1], a1)) return false;
     return true;
   }
   static int first_failed_with(const Spec& s, int a0, int a1) {
@@ -310,8 +310,8 @@ class Model {
     std::vector<int> M;
     for (int eid : mo.active[func]) if (matches(E.at(eid).s, a0, a1)) M.push_back(eid);
     for (int eid : M) if (E.at(eid).tainted) { x.degrade = true; return CallResult{}; }
-    std::vector<int> args{a0};
-    if (func == F_g) args.push_back(a1);
+    std::vector<int> args;
+    for (int k = 0; k < func_arity(func); ++k) args.push_back(call_arg(func, k, a0, a1));
     if (depth == 1) x.n_matching = static_cast<int>(M.size());
     if (M.empty()) {
       XRep r; r.kind = K_NOMATCH; r.fatal = true; r.func = func; r.args = args;
@@ -326,7 +326,7 @@ class Model {
           MExp& e = E.at(eid);
           XListed l{eid, {}, -1};
           if (!mspec_accepts(e.s.m[0], a0)) l.rej_params.push_back(0);
-          if (func == F_g && !mspec_accepts(e.s.m[1], a1)) l.rej_params.push_back(1);
+          if (second_pos(func) >= 0 && !mspec_accepts(e.s.m[1], a1)) l.rej_params.push_back(second_pos(func));
           if (l.rej_params.empty()) l.failed_with = first_failed_with(e.s, a0, a1);
           r.listed.push_back(l);
           e.reported = true;
